@@ -873,3 +873,19 @@ def c16_j(ctx):
 def c16_k(ctx):
     from .base import zero_is_valid_obligation
     zero_is_valid_obligation(ctx, ['warmup'])
+
+
+@obligation('C16-l', 'T2', 'the diagnostics and the weighted statistics behind a result object '
+            'contain no absolute tolerance', floor=5,
+            necessary='the property demands invariance under affine rescaling of the chains: a '
+                      'test against an absolute number (np.isclose(var, 0), var < 1e-8) answers '
+                      'differently for the same chains expressed in other units')
+def c16_l(ctx):
+    from .base import scale_free_sweep
+    fns = [ctx.fn('elfi.methods.mcmc:eff_sample_size'),
+           ctx.fn('elfi.methods.mcmc:gelman_rubin_statistic'),
+           ctx.fn('elfi.methods.utils:weighted_sample_quantile'),
+           ctx.fn('elfi.methods.utils:weighted_var'),
+           ctx.fn('elfi.methods.utils:normalize_weights')]
+    scale_free_sweep(ctx, fns, 'the diagnostic is no longer invariant under rescaling of the '
+                               'chains (chains with a small spread are treated as constant)')
